@@ -653,11 +653,26 @@ class IH5Group(IH5InnerNode):
             return n  # existing group
         return self.create_group(name)
 
-    def require_dataset(self, name: str, *args, **kwds) -> IH5Dataset:
+    def require_dataset(
+        self, name: str, shape, dtype, exact: bool = False, **kwds
+    ) -> IH5Dataset:
         if (n := self._require_node(name, IH5Dataset)) is not None:
-            # TODO: check dimensions etc, copy into patch if it fits
+            # like h5py: an existing dataset must have the requested shape and a
+            # conversion-compatible (if exact is set: the same) type
+            dset = n._files[n._cidx][n._gpath]
+            if isinstance(shape, int):
+                shape = (shape,)
+            if shape != dset.shape:
+                msg = f"Shapes do not match (existing {dset.shape} vs new {shape})"
+                raise TypeError(msg)
+            if exact and dtype != dset.dtype:
+                msg = f"Datatypes do not exactly match (existing {dset.dtype} vs new {dtype})"
+                raise TypeError(msg)
+            if not exact and not np.can_cast(dtype, dset.dtype):
+                msg = f"Datatypes cannot be safely cast (existing {dset.dtype} vs new {dtype})"
+                raise TypeError(msg)
             return n
-        return self.create_dataset(name, *args, **kwds)
+        return self.create_dataset(name, shape=shape, dtype=dtype, **kwds)
 
     def copy(self, source: CopySource, dest: CopyDest, **kwargs):
         src_node = self[source] if isinstance(source, str) else source
